@@ -1369,6 +1369,50 @@ Proof.
     cbn [ev_name ev_value fst snd]. rewrite HA. intros Heq. apply HB. symmetry. exact Heq.
 Qed.
 
+(* validate_dynamic_job with unchanged inputs: PENDING with the deferred flag the source passes *)
+Lemma validate_rule_tie l s :
+  step_op (OpValidatePending l) s = set_sstate l SPending gen_validate_unchanged_deferred s.
+Proof. reflexivity. Qed.
+
+(* After a restart every tracked variable of every attached step has its current value recorded:
+   rescan_env_vars writes back EVERY row that it found changed (several variables of one step
+   included), and an unchanged row of an attached step already holds the current value. *)
+Lemma on_eqb_eq a b : on_eqb a b = true -> a = b.
+Proof.
+  destruct a as [x|], b as [y|]; cbn; intros H; try discriminate; [|reflexivity].
+  apply N.eqb_eq in H. subst. reflexivity.
+Qed.
+
+Theorem env_store_complete (s : st) (vals : list envval) (cur : str -> option N) (r' : envval) :
+  In r' (rescan_env_store true vals cur s) -> attached (KStep, ev_step r') s = true ->
+  ev_value r' = cur (ev_name r').
+Proof.
+  unfold rescan_env_store. intros Hin Hatt. apply in_map_iff in Hin. destruct Hin as [r [Hr Hin]].
+  destruct (env_row_changed cur s r) eqn:Hc.
+  - subst r'. reflexivity.
+  - subst r'. unfold env_row_changed in Hc. rewrite Hatt in Hc. cbn [andb] in Hc.
+    apply negb_false_iff in Hc. symmetry. apply on_eqb_eq. exact Hc.
+Qed.
+
+(* the rows, their steps and their variable names are kept; exactly the steps with a changed row are rerun *)
+Theorem env_store_shape (s : st) (vals : list envval) (cur : str -> option N) :
+  map ev_step (rescan_env_store true vals cur s) = map ev_step vals /\
+  map ev_name (rescan_env_store true vals cur s) = map ev_name vals /\
+  (forall l, In l (rescan_env_steps vals cur s) <->
+             exists r, In r vals /\ ev_step r = l /\ env_row_changed cur s r = true).
+Proof.
+  unfold rescan_env_store. rewrite !map_map. split; [|split].
+  - apply map_ext. intros r. destruct (env_row_changed cur s r); reflexivity.
+  - apply map_ext. intros r. destruct (env_row_changed cur s r); reflexivity.
+  - intros l. unfold rescan_env_steps. split.
+    + intros H. assert (Hin : In l (map ev_step (filter (env_row_changed cur s) vals))).
+      { clear - H. revert H. generalize (map ev_step (filter (env_row_changed cur s) vals)). intros xs.
+        induction xs as [|x xs IH]; cbn [nodup_strs]; intros H; [exact H|].
+        destruct H as [<-|H]; [left; reflexivity|]. apply filter_In in H. right. apply IH. tauto. }
+      apply in_map_iff in Hin. destruct Hin as [r [Hl Hr]]. apply filter_In in Hr. exists r. tauto.
+    + intros [r [Hin [Hl Hc]]]. apply in_nodup_strs. rewrite <- Hl. apply in_map. apply filter_In. auto.
+Qed.
+
 Lemma env_rule_tie : gen_env_rescan_stores_seen_value = true /\
                      existsb (N.eqb (fstate_code FUnconfirmed)) gen_confirmation_kept_states
                      = gen_drops_stale_confirmation.
